@@ -480,6 +480,46 @@ theorem arriveHandle_inv {cfg : Cfg} {s : State} (h : Inv cfg s) (c : Nat) (sc :
     · exact callHandle_inv (pollHandle_inv h hd a) c sc hd hk hc
     · exact refuseWith_inv (pollHandle_inv h hd a) c sc _ hc
 
+/-! ## an inner service whose `call()` itself panics -/
+
+/-- counter up, guard, unwind: what is left of such a call is the caller's knowledge of the panic -/
+theorem panicCall_eq (s : State) (c : Nat) (sc : Step) : panicCall s c sc = refuseWith s c sc .panic := by
+  simp only [panicCall, unwindCall, enterCall, refuseWith, Nat.add_sub_cancel]
+
+theorem panicCall_inv {cfg : Cfg} {s : State} (h : Inv cfg s) (c : Nat) (sc : Step)
+    (hc : c ∉ s.checked) : Inv cfg (panicCall s c sc) := by
+  rw [panicCall_eq]; exact refuseWith_inv h c sc _ hc
+
+theorem arriveFreshX_inv {cfg : Cfg} {s : State} (h : Inv cfg s) (c : Nat) (sc : Step)
+    (hc : c ∉ s.checked) : Inv cfg (arriveFreshX s c sc) := by
+  unfold arriveFreshX
+  split
+  · exact refuse_inv (recordCheck_inv h c) c sc hc
+  · exact panicCall_inv (recordCheck_inv h c) c sc hc
+
+theorem arriveHandleX_inv {cfg : Cfg} {s : State} (h : Inv cfg s) (c : Nat) (sc : Step) (hd : Nat) (a : Ans)
+    (hc : c ∉ s.checked) : Inv cfg (arriveHandleX s c sc hd a) := by
+  unfold arriveHandleX
+  split
+  · exact panicCall_inv (eraseH_inv h hd) c sc hc
+  · split
+    · exact panicCall_inv (eraseH_inv (pollHandle_inv h hd a) hd) c sc hc
+    · exact refuseWith_inv (pollHandle_inv h hd a) c sc _ hc
+
+theorem arriveX_inv {cfg : Cfg} {s : State} (h : Inv cfg s) (c : Nat) (sc : Step) (hd : Nat) (a : Ans) :
+    Inv cfg (stepS cfg s (.arriveX c sc hd a)) := by
+  simp only [stepS]
+  split
+  · exact h
+  · split
+    · apply panicCall_inv (uncheck_inv h c) c sc
+      intro hm
+      exact ((h.chkNodup.mem_erase_iff).mp hm).1 rfl
+    · next hc =>
+      split
+      · exact arriveFreshX_inv h c sc hc
+      · exact arriveHandleX_inv h c sc hd a hc
+
 theorem readyOp_inv {cfg : Cfg} {s : State} (h : Inv cfg s) (hd : Nat) (a : Ans) : Inv cfg (readyOp s hd a) :=
   emit_inv (pollHandle_inv h hd a) _ (by rfl) (by rfl)
 
@@ -929,6 +969,7 @@ theorem stepS_inv {cfg : Cfg} (w : Wf cfg) {s : State} (h : Inv cfg s) (op : Op)
       · next hc => exact arriveHandle_inv (noteKeep_inv h c keep) c sc hd a hk' (by rw [noteKeep_checked]; exact hc)
   | thread t prog => exact { h with }
   | sched sch => exact schedOp_inv w h sch
+  | arriveX c sc hd a => exact arriveX_inv h c sc hd a
 
 /-- a new caller arriving while `poll_ready`'s comparison says "below the limit" is admitted in that step -/
 theorem arrive_below (cfg : Cfg) (s : State) (c : Nat) (sc : Step) (keep : Bool) (hk : known s c = false)
